@@ -110,7 +110,9 @@ def by_variant(arms, vnames):
 
 
 def check(ctx):
-    configs = ["native"] if ctx.tier == "quick" else ["native", "portable", "native-rel", "portable-rel"]
+    # (the release configuration is part of the quick tier: an unmap, a check or a length that lives inside a debug_assert! is
+    # compiled out there, and only there)
+    configs = ["native", "native-rel"] if ctx.tier == "quick" else ["native", "portable", "native-rel", "portable-rel"]
     for cfg in configs:
         check_config(ctx, ctx.facts(cfg), "" if cfg == "native" else "@" + cfg)
     if ctx.tier == "thorough":
@@ -214,8 +216,13 @@ def check_config(ctx, F, tag):
                "MemoryMap.ptr = %s (must be the mmap result)" % tstr(pt))
         lt = b.term_of_operand(ops["len"])
         ok_len = lt[0] == "call" and lt[1] == "bits::bytes_to_words" and lt[2][0] == mlen_t
+        sem, pos = "", False
+        if not ok_len and lt != mlen_t:
+            import residues
+            r_, sem = residues.agrees(F, lt, lambda x: x == strip_casts(mlen_t), lambda N: residues.call("bits::bytes_to_words", N))
+            ok_len, pos = bool(r_), r_ is False
         ctx.ob("C18.R3.len-is-words-of-mmap-length", NEW + tag, loc(st["sp"]), ok_len, "term-provenance",
-               "MemoryMap.len = %s; mmap length = %s (len must be bytes_to_words of the mapped byte length)" % (tstr(lt), tstr(mlen_t)))
+               "MemoryMap.len = %s; mmap length = %s (len must be bytes_to_words of the mapped byte length) %s" % (tstr(lt), tstr(mlen_t), sem), positive=pos)
         len_field_holds = "words" if ok_len else ("bytes" if lt == mlen_t else "unknown")
 
     # mmap length is the file size
@@ -234,6 +241,11 @@ def check_config(ctx, F, tag):
                 if y[0] == "const" and y[1] == 0 and x[0] == "bin" and x[2] == mlen_t and x[3][0] == "const" and \
                         ((x[1] == "Rem" and x[3][1] == 8) or (x[1] == "BitAnd" and x[3][1] == 7)):
                     ok8 = True
+                if not ok8 and x == mlen_t and y != mlen_t:
+                    # `len == <the next multiple of 8, written some other way>`: decided over the residues of len (A13)
+                    import residues
+                    r_, _why = residues.agrees(F, y, lambda z: z == strip_casts(mlen_t), lambda N: residues.call("bits::round_up_to_word_bytes", N))
+                    ok8 = ok8 or bool(r_)
     ctx.ob("C18.R3.size-multiple-of-8-guard", NEW + tag, mwhere, ok8, "guard-dominance",
            "mmap must be dominated by `len == round_up_to_word_bytes(len)` (or len %% 8 == 0); cmp facts: %s" %
            [tstr(("bin", f[1], f[2], f[3])) for f in facts if f[0] == "cmp"])
@@ -352,9 +364,14 @@ def check_config(ctx, F, tag):
                 okb = True
         elif len_field_holds == "bytes":
             okb = self_field(a1, "len")
+        sem, pos = "", False
+        if not okb and len_field_holds == "words":
+            import residues
+            r_, sem = residues.agrees(F, a1, lambda x: self_field(x, "len"), lambda N: ("bin", "Mul", N, ("const", 8)))
+            okb, pos = bool(r_), r_ is False
         ctx.ob("C18.R2.munmap-length-in-bytes", DROP + tag, loc(t["sp"]), okb, "term-provenance",
                "munmap length term: %s; the len field holds %s (constructor stores bytes_to_words(mmap length)), so the byte length is "
-               "words_to_bytes(self.len)" % (tstr(a1), len_field_holds))
+               "words_to_bytes(self.len) %s" % (tstr(a1), len_field_holds, sem), positive=pos)
 
     # ---- R3 slices
     for name in (ASREF, ASMUT):
